@@ -10,61 +10,61 @@ P = {
          "Necessary structural conditions of the zero-sum ledger on every path: only paired transfers/forwarders/settlement write the ledger, no ledger error is dropped, credits and accumulated debit pair up in OnUpdate, drivers write exactly one balance per AddNodeBalance and migrate trial credit atomically. In-place big.Int operations work on values the function owns and no *big.Int result aliases a parameter's field; every id in a badger key format is spelled as the id itself; a function handed to a retrying transaction wrapper keeps nothing from a failed attempt.",
          "Does not decide the arithmetic value of sums nor run-time transaction conflicts; K1 (credits and debit are separate store transactions) is a recorded known finding.", "§2 C01"),
  "C02": ("value-provenance (derives-from) and dominance rules over SSA",
-         "Structural conditions of billing: hosts/zero credit write nothing, pre-update snapshot ordering in Update, a single credit value from the client's own LastSeen, big.Int-only arithmetic, multiply-before-divide, LastSeen refreshed by both drivers, divisor guarded. In-place big.Int operations work on values the function owns (no shared digits).",
+         "Structural conditions of billing: hosts/zero credit write nothing, pre-update snapshot ordering in Update, a single credit value from the client's own LastSeen, big.Int-only arithmetic, multiply-before-divide, LastSeen refreshed by both drivers, divisor guarded. In-place big.Int operations work on values the function owns (no shared digits). Also evaluates the tracked-peer rules of C11 and the drivers' ledger rules of C01 (who is billed is who the store tracks).",
          "Does not decide the numeric identity floor(elapsed*price/interval) nor slicing invariance.", "§2 C02"),
  "C03": ("canonical-predicate and gate-reachability rules over SSA",
-         "Structural conditions of the minimum-balance rule: refusal predicate is canonically deposit+credit < min on the post-debit balance, hosts exempt, cut-off calls vipnode_disconnect on every connected peer before returning. The configured minimum is parsed in exact arithmetic and installed for every value but off; in-place big.Int operations work on values the function owns.",
+         "Structural conditions of the minimum-balance rule: refusal predicate is canonically deposit+credit < min on the post-debit balance, hosts exempt, cut-off calls vipnode_disconnect on every connected peer before returning. The configured minimum is parsed in exact arithmetic and installed for every value but off; in-place big.Int operations work on values the function owns. The error text reports the balance as the balance; after one disconnect call the fan-out loop goes on.",
          "Does not decide threshold arithmetic on concrete balances nor that hosts honour the call.", "§2 C03"),
  "C04": ("must-pass-through (gate reachability) + argument provenance over SSA; registry discovery through go/types",
-         "Every signed endpoint discovered from the Register calls reaches its effects only through the success edge of a verify call that passes its own sig/identity/nonce, the registered method name and all request parameters; the wrappers and request.Verify have the required shape. No repository type inside a signed endpoint's parameters declares its own JSON/text codec.",
+         "Every signed endpoint discovered from the Register calls reaches its effects only through the success edge of a verify call that passes its own sig/identity/nonce, the registered method name and all request parameters; the wrappers and request.Verify have the required shape. No repository type inside a signed endpoint's parameters declares its own JSON/text codec. Every wrapper keys the nonce store by the verified identity; signature shape tests refuse exactly non-signatures (len < h, both legacy recovery values).",
          "Does not decide cryptographic strength or JSON canonicalisation.", "§2 C04"),
  "C05": ("canonical-predicate, lock/transaction-region and key-provenance rules over SSA; sibling agreement",
-         "Both NonceStore implementations reject canonically stored >= nonce, perform load-compare-store in one lock/transaction region, enforce the 15-minute freshness window before storing, and key by the identity only; the persistent record outlives the nonce's freshness; nothing but CheckAndSaveNonce writes the nonce space; wrappers pass the same identity/nonce to Verify and to the nonce store and refuse on every nonce-store error. The signature binds the identity as received and the exact nonce (hash-covers, shared with C04).",
+         "Both NonceStore implementations reject canonically stored >= nonce, perform load-compare-store in one lock/transaction region, enforce the 15-minute freshness window before storing, and key by the identity only; the persistent record outlives the nonce's freshness; nothing but CheckAndSaveNonce writes the nonce space; wrappers pass the same identity/nonce to Verify and to the nonce store and refuse on every nonce-store error. The signature binds the identity as received and the exact nonce (hash-covers, shared with C04). Every value the persisted TTL can take includes the window; the nonce's lead is added only when positive.",
          "Does not decide behaviour across reopen (C13 rules) nor clock skew.", "§2 C05"),
  "C06": ("gate reachability over SSA CFGs",
-         "In every wrapper the nonce store is reachable only past request.Verify's success edge; in every signed endpoint no effect is reachable with the verify success edges removed. No nonce-space write precedes a refusing return of CheckAndSaveNonce.",
+         "In every wrapper the nonce store is reachable only past request.Verify's success edge; in every signed endpoint no effect is reachable with the verify success edges removed. No nonce-space write precedes a refusing return of CheckAndSaveNonce. Also evaluates the nonce-store rules of C05 (a replay that is honoured is a refused request that changed something).",
          "Refusals for reasons other than authentication are outside C06.", "§2 C06"),
  "C07": ("gate reachability, must-pass-through, provenance and lockset rules over SSA",
-         "Withdraw settles only past verify and the canonical minimum check on deposit+credit of the verified wallet, pays that sum (through the fee), consumes exactly the credit read on every path after a successful settle, inside one lock region; no ledger write on failure paths. Deposit-cache keys derive from Address.Hex() on both sides and a miss-fill never overwrites a newer Set; ledger keys are spelled as the id itself; in-place big.Int operations work on owned values.",
+         "Withdraw settles only past verify and the canonical minimum check on deposit+credit of the verified wallet, pays that sum (through the fee), consumes exactly the credit read on every path after a successful settle, inside one lock region; no ledger write on failure paths. Deposit-cache keys derive from Address.Hex() on both sides and a miss-fill never overwrites a newer Set; ledger keys are spelled as the id itself; in-place big.Int operations work on owned values. No argument is named like a different same-typed parameter of its callee (settlement amounts in their own positions); every key format is a known prefix followed by %s.",
          "Does not decide on-chain effects nor fee arithmetic.", "§2 C07"),
  "C08": ("canonical-predicate, provenance and sibling-agreement rules over SSA",
-         "requestHosts clamps and refuses non-positive counts, bounds the reply by the request, skips self and existing peers, accepts only hosts that acknowledged vipnode_whitelist for the requester (every Service.Call implementation turns an error reply into an error); the tracked peer set survives re-registration; both drivers filter on host flag, kind and recency with agreeing limit semantics.",
+         "requestHosts clamps and refuses non-positive counts, bounds the reply by the request, skips self and existing peers, accepts only hosts that acknowledged vipnode_whitelist for the requester (every Service.Call implementation turns an error reply into an error); the tracked peer set survives re-registration; both drivers filter on host flag, kind and recency with agreeing limit semantics. Also evaluates the registry rules of C09 (currently connected).",
          "Does not decide counts for concrete populations nor arrival orders.", "§2 C08"),
  "C09": ("control-dependence, lockset and must-pass-through rules over SSA",
-         "Closing a connection can only unregister that connection's own entry; both registry maps are written together under the pool mutex; the value registered is the caller's connection; the server calls the disconnect hook on every exit of the serve loop, which returns without blocking once the codec fails; no other site deletes registry entries. The per-id reply channel is buffered so the read loop reaches the failing read.",
+         "Closing a connection can only unregister that connection's own entry; both registry maps are written together under the pool mutex; the value registered is the caller's connection; the server calls the disconnect hook on every exit of the serve loop, which returns without blocking once the codec fails; no other site deletes registry entries. The per-id reply channel is buffered so the read loop reaches the failing read. No reverse call or channel wait under the registry lock; every connected peer is told to drop a cut-off client.",
          "Does not decide closes racing in-flight requests.", "§2 C09"),
  "C10": ("lockset dataflow + freshness (ownership) analysis over the handler-reachable call graph (VTA)",
-         "Every field of a mutex-bearing shared type that a handler writes is accessed under that mutex; no unsynchronised write to non-fresh shared state in handler scope; each badger method is exactly one transaction; no in-place big.Int mutation of shared snapshots; no blocking call under a lock. No atomic load/compute/store sequence outside a lock; OnUpdate's credits and debit pair up on every path; big.Int ownership; retry closures start from scratch; pointer-receiver calls of stateful library value types on a field's address count as writes.",
+         "Every field of a mutex-bearing shared type that a handler writes is accessed under that mutex; no unsynchronised write to non-fresh shared state in handler scope; each badger method is exactly one transaction; no in-place big.Int mutation of shared snapshots; no blocking call under a lock. No atomic load/compute/store sequence outside a lock; OnUpdate's credits and debit pair up on every path; big.Int ownership; retry closures start from scratch; pointer-receiver calls of stateful library value types on a field's address count as writes. Also evaluates C07's settlement rules and the codec read-ahead rule; no atomic operation on a by-value copy.",
          "Does not decide serialisability of multi-call operations or run-time transaction conflicts.", "§2 C10"),
  "C11": ("provenance, canonical-predicate and sibling-agreement rules over SSA",
-         "Both drivers track only known peers with the peer's own LastSeen, evict canonically timestamp <= now-ExpireInterval with deleted <=> reported, persist in the same region, look every reported peer up and rewrite every found peer's entry (refresh), run the expiry sweep on every accepted keep-alive; Update wires InvalidPeers/ActivePeers from the right store results. Which of a peer description's names is its id depends on the text's shape only; retry closures start from scratch.",
+         "Both drivers track only known peers with the peer's own LastSeen, evict canonically timestamp <= now-ExpireInterval with deleted <=> reported, persist in the same region, look every reported peer up and rewrite every found peer's entry (refresh), run the expiry sweep on every accepted keep-alive; Update wires InvalidPeers/ActivePeers from the right store results. Which of a peer description's names is its id depends on the text's shape only; retry closures start from scratch. From the not-found edge of the peer lookup the loop goes on to the next id; a re-registration keeps the tracked peers (found branch).",
          "Does not decide the history-level 'exactly if' statement.", "§2 C11"),
  "C12": ("sibling cross-check of per-method effect summaries computed from SSA",
-         "For each Store method both drivers have equal write/delete sets over the abstract key spaces, equal assigned fields and equal sentinel errors; gob decode targets are fresh (also through decode helpers; loopItem resets its target); where badger answers a miss with a sentinel the memory driver's lookup is comma-ok; both drivers run the expiry sweep on every successful UpdateNodePeers. Inverse indexes beside a contract map are verified (add/remove/owner/made) or reported; badger keys are spelled as the id itself; host-query filters are canonical in both drivers; retry closures start from scratch.",
+         "For each Store method both drivers have equal write/delete sets over the abstract key spaces, equal assigned fields and equal sentinel errors; gob decode targets are fresh (also through decode helpers; loopItem resets its target); where badger answers a miss with a sentinel the memory driver's lookup is comma-ok; both drivers run the expiry sweep on every successful UpdateNodePeers. Inverse indexes beside a contract map are verified (add/remove/owner/made) or reported; badger keys are spelled as the id itself; host-query filters are canonical in both drivers; retry closures start from scratch. IsAccountNode's nil return needs link found AND stored account equal; Stats counts activity with ExpireInterval; also the nonce-store rules and big.Int ownership.",
          "Does not decide value-level equality on arbitrary operation sequences.", "§2 C12"),
  "C13": ("transaction-region, error-propagation and API-contract (key lifetime) rules over SSA",
-         "Every badger method is one transaction, every write error inside a transaction reaches the closure's result, no Item.Key() slice is retained by a write, no transaction is nested in another, migrations run in one transaction, bump the version and touch only non-ledger prefixes (also inside helpers), and the pool binary backs every service with the one selected store. Badger keys are spelled as the id itself; retry closures start from scratch.",
+         "Every badger method is one transaction, every write error inside a transaction reaches the closure's result, no Item.Key() slice is retained by a write, no transaction is nested in another, migrations run in one transaction, bump the version and touch only non-ledger prefixes (also inside helpers), and the pool binary backs every service with the one selected store. Badger keys are spelled as the id itself; retry closures start from scratch. Also evaluates the nonce-store rules (persisted TTL) and C11's driver rules (whole reported peer set stored).",
          "Does not decide crash points or durability (badger is trusted).", "§2 C13"),
  "C14": ("provenance, lockset and shape rules over SSA",
-         "Replies are routed by the id of the very message written/received, requests are dispatched asynchronously with a buffered reply channel, handlers get their own connection in the context, waits are cancellable, ids are atomic, no blocking under Remote.mu, nil embedded responses are not dereferenced. No Codec.WriteMessage keeps unguarded state between calls.",
+         "Replies are routed by the id of the very message written/received, requests are dispatched asynchronously with a buffered reply channel, handlers get their own connection in the context, waits are cancellable, ids are atomic, no blocking under Remote.mu, nil embedded responses are not dereferenced. No Codec.WriteMessage keeps unguarded state between calls. Remainder before connection where they are joined; no atomic operation on a by-value copy; pending slots discarded only at PendingLimit.",
          "Does not decide delivery orders or exactly-once handling under concrete schedules.", "§2 C14"),
  "C15": ("panic-site enumeration in the network-reachable scope (VTA call graph) using the compiler's unproven bounds checks (-d=ssa/check_bce) plus guard recognition",
          "Every panic-capable construct reachable from a network message (unproven bounds checks, nil embedded message parts, make with unproven size, make sizes not bounded by what the process holds, nil-map writes, type assertions, explicit panics, unguarded big.Int division) is discharged by a dominating guard or a named exception. The Account bounds exception holds only while both drivers' AddAccountNode refuse unregistered ids; no map of a mutex-bearing struct is written under a read lock; a host connection is registered only past a successful context lookup.",
          "Does not decide panics inside third-party libraries, resource exhaustion or liveness.", "§2 C15"),
  "C16": ("exhaustive registry enumeration through go/types method sets + gate reachability in Server.Handle",
-         "The names exposed by every network-facing registration equal the documented surface; Register applies the allow-list and naming rule; Handle invokes a method only past registry hit and successful positional parsing; arity checks are present. No exposed method declares a pointer (optional) parameter.",
+         "The names exposed by every network-facing registration equal the documented surface; Register applies the allow-list and naming rule; Handle invokes a method only past registry hit and successful positional parsing; arity checks are present. No exposed method declares a pointer (optional) parameter. No success return of the positional parser ahead of the decoder and the missing-argument count.",
          "Does not decide JSON-to-Go decoding leniency per type.", "§2 C16"),
  "C17": ("ownership and lockset rules over SSA",
-         "A stream codec keeps its decoder (or its buffered remainder) across reads; the shipped gorilla codec serialises writes and reads under its mutexes; the binaries import only that codec; the framed gobwas codec discards the unread remainder before the next frame and flushes every write; the HTTP stub is a plain POST the transport never replays. No interface{} member in the message types (foreign JSON is carried as raw bytes).",
+         "A stream codec keeps its decoder (or its buffered remainder) across reads; the shipped gorilla codec serialises writes and reads under its mutexes; the binaries import only that codec; the framed gobwas codec discards the unread remainder before the next frame and flushes every write; the HTTP stub is a plain POST the transport never replays. No interface{} member in the message types (foreign JSON is carried as raw bytes). Remainder read before the connection (io.MultiReader order); HTTP size limits refuse only bodies greater than MaxContentLength and LimitReaders are limited by it.",
          "Does not decide exactly-once/in-order over arbitrary chunkings.", "§2 C17"),
  "C18": ("gate reachability over the call graph, pairing and provenance rules over SSA",
-         "Node mutators run only past a successful pool update; every invalid peer is both un-trusted and disconnected with the same id; strict mode keeps a local peer only on lookup-hit and equal host; the shortfall requested is NumHosts-len(ActivePeers) of the node's own kind; every returned host is dialled; Parity's reserved-peer RPCs never receive the bare enode://id form. Node adapters fail exactly when the RPC fails (sibling agreement), never on the reply's content.",
+         "Node mutators run only past a successful pool update; every invalid peer is both un-trusted and disconnected with the same id; strict mode keeps a local peer only on lookup-hit and equal host; the shortfall requested is NumHosts-len(ActivePeers) of the node's own kind; every returned host is dialled; Parity's reserved-peer RPCs never receive the bare enode://id form. Node adapters fail exactly when the RPC fails (sibling agreement), never on the reply's content. EnodeURI takes the id from EnodeID(); NodeURI.ID reads the id where the URL parser puts it; adapters' connect/disconnect reach only add/remove RPCs.",
          "Does not decide multi-round convergence.", "§2 C18"),
  "C19": ("provenance and gate-reachability rules over SSA",
-         "The advertised URL's user derives only from the verified node id, host:port is built with net.JoinHostPort, empty hosts are refused before construction, registration happens only past successful normalisation, defaults come from RemoteAddr and the constant 30303. Address sources report net.Addr.String() as a whole; an override the URL parser rejects is refused.",
+         "The advertised URL's user derives only from the verified node id, host:port is built with net.JoinHostPort, empty hosts are refused before construction, registration happens only past successful normalisation, defaults come from RemoteAddr and the constant 30303. Address sources report net.Addr.String() as a whole; an override the URL parser rejects is refused. An override's host/port replaces the default only when known non-empty; address sources never call LocalAddr.",
          "Does not decide URI round-trips over all inputs.", "§2 C19"),
  "C20": ("lockset, must-pass-through and constant-evaluation rules over SSA",
-         "Start tests-and-sets the started flag in one lock region and resets it on every path that does not leave a loop running; exactly one goroutine is spawned past successful connect/update; Stop/Wait are wired to it; the update interval is accepted only below the pool's expiry window. Every RemotePool stub waits on its own ctx parameter (Start's deadline reaches the pool call).",
+         "Start tests-and-sets the started flag in one lock region and resets it on every path that does not leave a loop running; exactly one goroutine is spawned past successful connect/update; Stop/Wait are wired to it; the update interval is accepted only below the pool's expiry window. Every RemotePool stub waits on its own ctx parameter (Start's deadline reaches the pool call). One-shot timers are re-armed in the loop; no keep-alive after a reset that has taken effect; every use of the stop/wait channels follows the initialiser.",
          "Does not decide real-time cadence.", "§2 C20"),
 }
 
